@@ -676,15 +676,34 @@ func canonBinop(s *Sym, op token.Token) {
 	case r.Kind == "ind" && l.Kind != "ind" && l.Kind != "const":
 		swap = true
 	}
-	if !swap {
-		return
+	if swap {
+		switch op {
+		case token.EQL, token.NEQ, token.ADD, token.MUL, token.AND, token.OR, token.XOR:
+			s.Args[0], s.Args[1] = s.Args[1], s.Args[0]
+		case token.LSS, token.GTR, token.LEQ, token.GEQ:
+			s.Args[0], s.Args[1] = s.Args[1], s.Args[0]
+			s.Name = flipOp(op).String()
+		}
 	}
-	switch op {
-	case token.EQL, token.NEQ, token.ADD, token.MUL, token.AND, token.OR, token.XOR:
-		s.Args[0], s.Args[1] = s.Args[1], s.Args[0]
-	case token.LSS, token.GTR, token.LEQ, token.GEQ:
-		s.Args[0], s.Args[1] = s.Args[1], s.Args[0]
-		s.Name = flipOp(op).String()
+	// a length is never negative: the spellings of "non-empty" and "empty" are one comparison each
+	//   len(x) != 0, len(x) >= 1  →  len(x) > 0        len(x) < 1, len(x) <= 0  →  len(x) == 0
+	l, r = s.Args[0].Strip(), s.Args[1].Strip()
+	if l.Kind == "builtin" && l.Name == "len" && r.Kind == "const" {
+		if k, isK := r.ConstInt(); isK {
+			zero := func() {
+				if k != 0 {
+					s.Args[1] = &Sym{Kind: "const", Name: "0", V: ssa.NewConst(constant.MakeInt64(0), types.Typ[types.Int])}
+				}
+			}
+			switch {
+			case s.Name == "!=" && k == 0, s.Name == ">=" && k == 1:
+				s.Name = ">"
+				zero()
+			case s.Name == "<" && k == 1, s.Name == "<=" && k == 0:
+				s.Name = "=="
+				zero()
+			}
+		}
 	}
 }
 
